@@ -26,6 +26,7 @@ type genOpt struct {
 	Size     int  // 0 tiny .. 3 large
 	Hostile  bool // ill-typed defaults allowed
 	NoGating bool
+	Applied  bool // clone cases: attach applied directives everywhere
 	// NoBeyond: no wrapper chain deeper than the query depth (rebuild cases need that)
 	NoBeyond bool
 	// Plain: only defaults whose printed form the real lexer reads back (no astral, U+FFFD, invalid UTF-8)
